@@ -10,8 +10,9 @@ for f in /tmp/vout/violation-*.json; do
   python3 - "$f" <<'PY'
 import json,sys
 r=json.load(open(sys.argv[1]))
-print("REPLAY", sys.argv[1], json.dumps(r['config']), len(r['steps']), "steps")
-for s in r['steps']:
+steps=r.get('steps') or []
+print("REPLAY", sys.argv[1], json.dumps(r.get('config')), len(steps), "steps", ("extra: "+json.dumps(r.get('extra'))[:600]) if r.get('extra') else "")
+for s in steps:
     d={k:v for k,v in s.items() if v not in (None,{},[],"",False,0) and k not in ('exp','cas')}
     if s.get('cas',{}).get('k'): d['cas']=s['cas']['k']
     if s.get('exp',{}).get('k') not in (None,'','zero'): d['exp']=s['exp']['k']
